@@ -1,8 +1,8 @@
 package prunner
 
 // Bounded stand-in for the graph-ordering clause of C02/C15 (NOT a proof): exhaustive enumeration of all
-// directed graphs (self-loops included) on n <= N named tasks, run through the REAL buildJobTasks and
-// buildPipelineGraph. Injected into the package with `go test -overlay`; nothing is written into the repository.
+// directed graphs (self-loops included) on n <= N named tasks (N <= 4; sampled above), and of all labelled DAGs on
+// 5..VERIF_BOUND_DAGN named tasks, run through the REAL buildJobTasks and buildPipelineGraph. Injected into the package with `go test -overlay`; nothing is written into the repository.
 
 import (
 	"fmt"
@@ -78,6 +78,66 @@ func TestVerifBoundedGraphOrder(t *testing.T) {
 		v, _ := strconv.Atoi(s)
 		seed = uint64(v)*2654435761 + 1
 	}
+	checkGraph := func(n int, adj uint64) {
+		atomic.AddInt64(&total, 1)
+		tasks := map[string]definition.TaskDef{}
+		for i := 0; i < n; i++ {
+			var deps []string
+			for j := 0; j < n; j++ {
+				if adj&(1<<uint(i*n+j)) != 0 {
+					deps = append(deps, names[j])
+				}
+			}
+			tasks[names[i]] = definition.TaskDef{Script: []string{"true"}, DependsOn: deps}
+		}
+		jt := buildJobTasks(tasks)
+		desc := fmt.Sprintf("n=%d adj=%b", n, adj)
+		// permutation
+		if len(jt) != n {
+			fail(desc + ": task list length")
+			return
+		}
+		got := make([]string, n)
+		pos := map[string]int{}
+		for k, x := range jt {
+			got[k] = x.Name
+			pos[x.Name] = k
+		}
+		srt := append([]string{}, got...)
+		sort.Strings(srt)
+		for k := 0; k < n; k++ {
+			if srt[k] != names[k] {
+				fail(desc + ": not a permutation of the tasks")
+			}
+		}
+		// deterministic
+		jt2 := buildJobTasks(tasks)
+		for k := range jt {
+			if jt2[k].Name != jt[k].Name {
+				fail(desc + ": order depends on map iteration order")
+				break
+			}
+		}
+		_, err := buildPipelineGraph(id, jt, nil)
+		if verifAcyclic(n, adj) {
+			atomic.AddInt64(&acyclicN, 1)
+			for _, x := range jt {
+				for _, d := range x.DependsOn {
+					if pos[d] >= pos[x.Name] {
+						fail(desc + ": task " + x.Name + " listed before its dependency " + d)
+					}
+				}
+			}
+			if err != nil {
+				fail(desc + ": acyclic graph refused: " + err.Error())
+			}
+		} else {
+			atomic.AddInt64(&cyclicN, 1)
+			if err == nil {
+				fail(desc + ": cyclic graph accepted")
+			}
+		}
+	}
 	for n := 0; n <= maxN; n++ {
 		bits := uint(n * n)
 		count := uint64(1) << bits
@@ -114,71 +174,60 @@ func TestVerifBoundedGraphOrder(t *testing.T) {
 							z2 := z*0xD6E8FEB86659FD93 + 12345
 							adj = z & z2 & mask
 						}
-						atomic.AddInt64(&total, 1)
-						tasks := map[string]definition.TaskDef{}
-						for i := 0; i < n; i++ {
-							var deps []string
-							for j := 0; j < n; j++ {
-								if adj&(1<<uint(i*n+j)) != 0 {
-									deps = append(deps, names[j])
-								}
-							}
-							tasks[names[i]] = definition.TaskDef{Script: []string{"true"}, DependsOn: deps}
-						}
-						jt := buildJobTasks(tasks)
-						desc := fmt.Sprintf("n=%d adj=%b", n, adj)
-						// permutation
-						if len(jt) != n {
-							fail(desc + ": task list length")
-							continue
-						}
-						got := make([]string, n)
-						pos := map[string]int{}
-						for k, x := range jt {
-							got[k] = x.Name
-							pos[x.Name] = k
-						}
-						srt := append([]string{}, got...)
-						sort.Strings(srt)
-						for k := 0; k < n; k++ {
-							if srt[k] != names[k] {
-								fail(desc + ": not a permutation of the tasks")
-							}
-						}
-						// deterministic
-						jt2 := buildJobTasks(tasks)
-						for k := range jt {
-							if jt2[k].Name != jt[k].Name {
-								fail(desc + ": order depends on map iteration order")
-								break
-							}
-						}
-						_, err := buildPipelineGraph(id, jt, nil)
-						if verifAcyclic(n, adj) {
-							atomic.AddInt64(&acyclicN, 1)
-							for _, x := range jt {
-								for _, d := range x.DependsOn {
-									if pos[d] >= pos[x.Name] {
-										fail(desc + ": task " + x.Name + " listed before its dependency " + d)
-									}
-								}
-							}
-							if err != nil {
-								fail(desc + ": acyclic graph refused: " + err.Error())
-							}
-						} else {
-							atomic.AddInt64(&cyclicN, 1)
-							if err == nil {
-								fail(desc + ": cyclic graph accepted")
-							}
-						}
+						checkGraph(n, adj)
 					}
 				}
 			}()
 		}
 		wg.Wait()
 	}
-	fmt.Printf("BOUNDED maxN=%d graphs=%d acyclic=%d cyclic=%d failures=%d\n", maxN, total, acyclicN, cyclicN, len(failures))
+
+	// all labelled DAGs (every assignment of dependency sets that has no cycle) on 4 < n <= dagN named tasks (the loop above is exhaustive only up to 4),
+	// enumerated by backtracking over the dependency set of one task after the other (a partial graph with a cycle is
+	// cut off: adding edges never removes a cycle)
+	dagN := 4
+	if s := os.Getenv("VERIF_BOUND_DAGN"); s != "" {
+		dagN, _ = strconv.Atoi(s)
+	}
+	var dagTotal int64
+	for n := 5; n <= dagN; n++ {
+		type item struct{ adj uint64 }
+		work := make(chan item, 1024)
+		var wg sync.WaitGroup
+		var rec func(i int, adj uint64, emit func(uint64), stop int)
+		rec = func(i int, adj uint64, emit func(uint64), stop int) {
+			if i == stop {
+				emit(adj)
+				return
+			}
+			for m := uint64(0); m < 1<<uint(n); m++ {
+				if m&(1<<uint(i)) != 0 {
+					continue
+				}
+				a := adj | m<<uint(i*n)
+				if !verifAcyclic(n, a) {
+					continue
+				}
+				rec(i+1, a, emit, stop)
+			}
+		}
+		for w := 0; w < runtime.NumCPU(); w++ {
+			wg.Add(1)
+			go func() {
+				defer wg.Done()
+				for it := range work {
+					rec(2, it.adj, func(a uint64) {
+						atomic.AddInt64(&dagTotal, 1)
+						checkGraph(n, a)
+					}, n)
+				}
+			}()
+		}
+		rec(0, 0, func(a uint64) { work <- item{a} }, 2)
+		close(work)
+		wg.Wait()
+	}
+	fmt.Printf("BOUNDED maxN=%d graphs=%d acyclic=%d cyclic=%d dagN=%d dags=%d failures=%d\n", maxN, total, acyclicN, cyclicN, dagN, dagTotal, len(failures))
 	for _, f := range failures {
 		fmt.Println("BOUNDED-FAIL " + f)
 	}
